@@ -114,6 +114,23 @@ Proof.
     destruct (Z.ltb_spec (a - b) a), (Z.ltb_spec 0 b); cbn; try reflexivity; lia.
 Qed.
 
+(* the monotonic-clock path of Time.Sub is the same function of the two readings *)
+Theorem sub_mono_sat t u : is_dur t -> is_dur u -> sub_mono t u = sat64 (t - u).
+Proof.
+  unfold is_dur. intros Ht Hu. unfold sub_mono, sat64.
+  destruct (Z.ltb_spec (t - u) min64) as [L1|L1]; [|destruct (Z.ltb_spec max64 (t - u)) as [L2|L2]].
+  - assert (Hw : wrap64 (t - u) = t - u + two64) by (apply (wrap64_unique _ _ 1); consts; lia).
+    rewrite Hw.
+    replace ((t - u + two64 <? 0) && (u <? t)) with false by (consts; lia).
+    replace ((0 <? t - u + two64) && (t <? u)) with true by (consts; lia). reflexivity.
+  - assert (Hw : wrap64 (t - u) = t - u - two64) by (apply (wrap64_unique _ _ (-1)); consts; lia).
+    rewrite Hw.
+    replace ((t - u - two64 <? 0) && (u <? t)) with true by (consts; lia). reflexivity.
+  - rewrite wrap64_id by lia.
+    replace ((t - u <? 0) && (u <? t)) with false by lia.
+    replace ((0 <? t - u) && (t <? u)) with false by lia. reflexivity.
+Qed.
+
 (* ------------------------------------------------------------------ Part 3 *)
 Lemma since_sat s t : wf_time (now s) -> wf_time t -> since s t = sat64 (elapsed s t).
 Proof. intros Hn Ht. unfold since, elapsed. apply go_sub_sat; assumption. Qed.
